@@ -5,6 +5,16 @@ from pyvc import gens
 import pyvc.calls  # noqa: F401  (loads pyvc/ext/*, incl. the ghost position counter of pyvc/ext/c04.py)
 from pyvc.ext import c04 as _ext
 
+from pyvc.contract import MACROS as _MACROS
+
+
+class _MP(dict):
+    def __missing__(self, k):
+        return _MACROS[k].py
+
+
+MACROS_PY = _MP()
+
 IU = "autoarray.inversion.inversion.imaging.inversion_imaging_util:"
 VU = "autoarray.inversion.inversion.inversion_util:"
 
@@ -804,6 +814,10 @@ spec_fn(
     lemmas=[dict(name="mono", induct="n", lo=0, hi="N",
                  stmt="implies(" + _LOK + ", forall(0, n + 1, lambda k1: 0 <= c04_offr(L, k1) and c04_offr(L, k1) <= c04_offr(L, n),"
                       " pat=((c04_offr(L, k1), c04_offr(L, n)),)))"),
+            # row p ends before every later row starts (stated without the term offr(p + 1))
+            dict(name="fit", induct="n", lo=0, hi="N",
+                 stmt="implies(" + _LOK + ", forall(0, n, lambda p: c04_offr(L, p) + toint(L[p]) <= c04_offr(L, n),"
+                      " pat=((c04_offr(L, p), c04_offr(L, n)),)))"),
             # the float sum numpy computes is this integer (for integer-valued non-negative entries)
             dict(name="npsum", induct="n", lo=0, hi="N",
                  stmt="implies(" + _LOK + ", toreal(c04_offr(L, n)) == c04_psum(L, n))")],
@@ -818,36 +832,76 @@ macro("c04_wh", ["V", "K", "nfs", "p", "q"], "(c04_w(V, K, nfs, p, q) / 2 if p =
 _WH = "c04_wh(noise_map_native, kernel_native, nfs, {p}, {q})"
 
 
-def _row(pre, idx, p, n, qlim, pos="{c}"):
+def _nz_py(V, K, nfs, p, q):
+    wh = MACROS_PY["c04_wh"]
+    return int(sum(1 for t in range(p, q) if abs(wh(V, K, nfs, p, t)) > 1e-9))
+
+
+# position of partner q in row p of the preload: number of partners t in [p, q) with a non-zero stored value W'[p,t]
+spec_fn(
+    "c04_nz", params=[("V", "real[2]"), ("K", "real[2]"), ("nfs", "int[2]"), ("p", "int"), ("q", "int")], ret="int",
+    let={"N": "nfs.shape[0]"},
+    axioms=["forall(0, N + 1, lambda p: c04_nz(V, K, nfs, p, p) == 0, pat=c04_nz(V, K, nfs, p, p))",
+            "forall(0, N, lambda p: forall(p, N, lambda q: c04_nz(V, K, nfs, p, q + 1) == c04_nz(V, K, nfs, p, q)"
+            " + (1 if c04_wh(V, K, nfs, p, q) != 0 else 0),"
+            # second trigger: the loop `for ip1 in range(ip0, N)` yields q = ip0 + k, whose successor is not of the shape `q + 1`
+            " pat=(c04_nz(V, K, nfs, p, q + 1), (c04_nz(V, K, nfs, p, q), c04_w(V, K, nfs, p, q)))))"],
+    lemmas=[dict(name="bound", induct="n", lo=0, hi="N",
+                 stmt="forall(0, n + 1, lambda p: 0 <= c04_nz(V, K, nfs, p, n) and c04_nz(V, K, nfs, p, n) <= n - p, pat=c04_nz(V, K, nfs, p, n))"),
+            dict(name="strict", induct="n", lo=0, hi="N",
+                 stmt="forall(0, n, lambda p: forall(p, n, lambda q1: c04_nz(V, K, nfs, p, q1) <= c04_nz(V, K, nfs, p, n)"
+                      " and implies(c04_wh(V, K, nfs, p, q1) != 0, c04_nz(V, K, nfs, p, q1) < c04_nz(V, K, nfs, p, n)),"
+                      " pat=((c04_nz(V, K, nfs, p, q1), c04_nz(V, K, nfs, p, n)),)))")],
+    py=_nz_py,
+    doc="rank of q among the partners of p with a non-zero stored overlap",
+)
+_NZ = "c04_nz(noise_map_native, kernel_native, nfs, {p}, {q})"
+
+
+def _row(pre, idx, p, n, qlim, pos="{c}", pats=False):
     """the first n entries of row p list, in increasing order of the partner q, exactly the q in [p, qlim) with W'[p,q] != 0"""
     P = lambda c: pos.format(c=c)
     i1 = idx + "[" + P("c") + "]"
+    pat1 = (", pat=%s" % i1) if pats else ""
+    pat2 = (", pat=((%s[%s], %s[%s]),)" % (idx, P("c1"), idx, P("c2"))) if pats else ""
     return [
-        "forall(0, %s, lambda c: %s and %s <= toint(%s) and toint(%s) < %s and %s[%s] == %s and %s[%s] != 0)" % (
-            n, _INTV.format(x=i1), p, i1, i1, qlim, pre, P("c"), _WH.format(p=p, q="toint(" + i1 + ")"), pre, P("c")),
-        "forall(0, %s, lambda c1: forall(c1 + 1, %s, lambda c2: %s[%s] < %s[%s]))" % (n, n, idx, P("c1"), idx, P("c2")),
-        "forall(%s, %s, lambda q: implies(%s != 0, exists(0, %s, lambda c: %s[%s] == q)))" % (p, qlim, _WH.format(p=p, q="q"), n, idx, P("c")),
+        "forall(0, %s, lambda c: %s and %s <= toint(%s) and toint(%s) < %s and %s[%s] == %s and %s[%s] != 0%s)" % (
+            n, _INTV.format(x=i1), p, i1, i1, qlim, pre, P("c"), _WH.format(p=p, q="toint(" + i1 + ")"), pre, P("c"), pat1),
+        "forall(0, %s, lambda c1: forall(c1 + 1, %s, lambda c2: %s[%s] < %s[%s]%s))" % (
+            n, n, idx, P("c1"), idx, P("c2"), pat2),
+        # completeness, with the position spelled out: the entry of partner q sits at its rank among the non-zero partners
+        "forall(%s, %s, lambda q: implies(%s != 0, %s < %s and %s[%s] == q))" % (
+            p, qlim, _WH.format(p=p, q="q"), _NZ.format(p=p, q="q"), n, idx, P(_NZ.format(p=p, q="q"))),
     ]
 
 
-def _rows(lim):
+def _rows(lim, pats=False):
     """rows p < lim of the temporary tables are final"""
     out = []
-    for r in _row("curvature_preload_tmp", "curvature_indexes_tmp", "p", "toint(curvature_lengths[p])", "N", pos="p, {c}"):
+    for r in _row("curvature_preload_tmp", "curvature_indexes_tmp", "p", "toint(curvature_lengths[p])", "N", pos="p, {c}", pats=pats):
         out.append("forall(0, %s, lambda p: %s)" % (lim, r))
     return out
 
 
 _OS = "(2 * Ky - 1) * (2 * Kx - 1)"
-_LENOK = ("forall(0, {lim}, lambda p: isint({L}[p]) and 0 <= {L}[p] and 0 <= toint({L}[p]) and toint({L}[p]) <= N - p and toint({L}[p]) <= " + _OS + ")")
+_LENOK = ("forall(0, {lim}, lambda p: isint({L}[p]) and 0 <= {L}[p] and 0 <= toint({L}[p]) and toint({L}[p]) <= N - p and toint({L}[p]) <= " + _OS
+          + " and toint({L}[p]) == " + _NZ.format(p="p", q="N") + ")")
 _SORTED = ("forall(0, N, lambda p: forall(p + 1, N, lambda q: nfs[p, 0] < nfs[q, 0] or (nfs[p, 0] == nfs[q, 0] and nfs[p, 1] < nfs[q, 1])))")
 _INWIN = "(nfs[{q}, 0] - nfs[ip0, 0] <= 2 * hy and nfs[{q}, 1] - nfs[ip0, 1] <= 2 * hx and nfs[ip0, 1] - nfs[{q}, 1] <= 2 * hx)"
 _RANK = "((nfs[{q}, 0] - nfs[ip0, 0]) * (4 * hx + 1) + nfs[{q}, 1] - nfs[ip0, 1] + 2 * hx)"
 _POS = "c04_offr({L}, {p}) + {c}"
-_RES_ROW = _row("result[0]", "result[1]", "p", "toint(result[2][p])", "N", pos=_POS.format(L="result[2]", p="p", c="{c}"))
-_COPIED = ("forall(0, {lim}, lambda p: forall(0, toint(curvature_lengths[p]), lambda c:"
-           " curvature_preload[" + _POS.format(L="curvature_lengths", p="p", c="c") + "] == curvature_preload_tmp[p, c]"
-           " and curvature_indexes[" + _POS.format(L="curvature_lengths", p="p", c="c") + "] == curvature_indexes_tmp[p, c]))")
+_RES_ROW = _row("result[0]", "result[1]", "p", "toint(result[2][p])", "N", pos=_POS.format(L="result[2]", p="p", c="{c}"), pats=True)
+
+
+def _resrows(lim):
+    """rows p < lim of the final arrays satisfy the statement"""
+    return ["forall(0, %s, lambda p: %s)" % (lim, r) for r in
+            _row("curvature_preload", "curvature_indexes", "p", "toint(curvature_lengths[p])", "N",
+                 pos=_POS.format(L="curvature_lengths", p="p", c="{c}"), pats=True)]
+
+
+_RES_ROW_I = _row("curvature_preload", "curvature_indexes", "i", "toint(curvature_lengths[i])", "N",
+                  pos=_POS.format(L="curvature_lengths", p="i", c="{c}"), pats=True)
 contract(
     IU + "w_tilde_curvature_preload_imaging_from", props=["C04"],
     types=_WT3, returns="(real[1],real[1],real[1])", let=_NAT,
@@ -856,17 +910,36 @@ contract(
              "result[0].shape[0] == c04_offr(result[2], N) and result[1].shape[0] == result[0].shape[0]"]
             + ["forall(0, N, lambda p: %s)" % r for r in _RES_ROW],
     loops={
-        0: {"inv": [_LENOK.format(lim="ip0", L="curvature_lengths")] + _rows("ip0")},
-        1: {"inv": _rows("ip0") + ["0 <= kernel_index and kernel_index <= ip1 - ip0 and kernel_index <= " + _OS]
+        0: {"inv": [_LENOK.format(lim="ip0", L="curvature_lengths")] + _rows("ip0", pats=True)},
+        1: {"inv": _rows("ip0") + ["0 <= kernel_index and kernel_index <= ip1 - ip0 and kernel_index <= " + _OS,
+                      "kernel_index <= " + _NZ.format(p="ip0", q="ip1") + " and kernel_index >= " + _NZ.format(p="ip0", q="ip1")]
                    + _row("curvature_preload_tmp", "curvature_indexes_tmp", "ip0", "kernel_index", "ip1", pos="ip0, {c}")
                    + ["forall(ip1, N, lambda q: implies(" + _INWIN.format(q="q") + ", kernel_index <= " + _RANK.format(q="q") + "))"]},
-        2: {"inv": ["index == c04_offr(curvature_lengths, i)", _COPIED.format(lim="i")]},
-        3: {"inv": ["index <= c04_offr(curvature_lengths, i) + data_index and index >= c04_offr(curvature_lengths, i) + data_index",
-                    _COPIED.format(lim="i"),
-                    "forall(0, data_index, lambda c: curvature_preload[" + _POS.format(L="curvature_lengths", p="i", c="c") + "] == curvature_preload_tmp[i, c]"
-                    " and curvature_indexes[" + _POS.format(L="curvature_lengths", p="i", c="c") + "] == curvature_indexes_tmp[i, c])"]},
+        # compaction: the rows already copied satisfy the final statement (so the postcondition IS the exit invariant);
+        # the transfer from the temporary row i is done for that one row in three ghost assertions
+        2: {"inv": ["index == c04_offr(curvature_lengths, i)"] + _resrows("i"),
+            "assert_at": {1: _RES_ROW_I}},
+        3: {"inv": ["index <= c04_offr(curvature_lengths, i) + data_index and index >= c04_offr(curvature_lengths, i) + data_index"]
+                   + _resrows("i")
+                   + ["forall(0, data_index, lambda c: curvature_preload[" + _POS.format(L="curvature_lengths", p="i", c="c") + "] == curvature_preload_tmp[i, c]"
+                      " and curvature_indexes[" + _POS.format(L="curvature_lengths", p="i", c="c") + "] == curvature_indexes_tmp[i, c],"
+                      " pat=(curvature_indexes[" + _POS.format(L="curvature_lengths", p="i", c="c") + "], curvature_indexes_tmp[i, c]))"]},
     },
     sentence={"c04_wh": "the preload is an exact sparse encoding of the upper triangle of W with the diagonal halved: row p lists, in increasing "
                         "order of q >= p, exactly the pixel pairs with W'[p,q] != 0 -- every non-zero overlap whatever its sign -- with their values"},
 )
 _ext.PSUM.add(IU + "w_tilde_curvature_preload_imaging_from")
+
+
+def _g_preload(rng, tier):
+    for _ in range(gens.budget(tier, 120, 1200)):
+        mask, data, noise, kernel, nfs = _native_case(rng, tier, zero_masked=rng.random() < 0.8)
+        if rng.random() < 0.5:
+            # exact arithmetic (powers of two) so that cancelling overlaps of signed kernels are exactly zero on both sides
+            noise = np.where(noise > 0, np.array([[rng.choice([0.5, 1.0, 2.0]) for _ in range(noise.shape[1])] for _ in range(noise.shape[0])]), 0.0)
+            kernel = np.array([[rng.choice([1.0, -2.0, 0.0, 0.5, -1.0]) for _ in range(kernel.shape[1])] for _ in range(kernel.shape[0])])
+        yield {"noise_map_native": noise, "kernel_native": kernel, "native_index_for_slim_index": nfs}
+
+
+CONTRACTS[IU + "w_tilde_curvature_preload_imaging_from"].gen = _g_preload
+CONTRACTS[IU + "w_tilde_curvature_preload_imaging_from"].nontrivial = lambda kernel_native, **kw: bool((kernel_native < 0).any())
